@@ -1,13 +1,38 @@
 import ASV.Drv.J
 import ASV.Spec.Lookup
+import ASV.Spec.GeneFunctions
 namespace ASV.Drv.C08
 open Lean ASV ASV.Drv ASV.Lookup
 
+def annOpOfJson (j : Json) : R GeneFn.Op := do
+  match ← asStr (← idx j 0) with
+  | "add" => return .add ⟨← asNat (← idx j 1), ← asStr (← idx j 2), ← asStr (← idx j 3), ← asStr (← idx j 4)⟩
+  | "clear" => return .clear
+  | t => throw s!"bad annotation op {t}"
+
+/-- a gene; with an annotation history `ann` its core products are what the container model's
+    `get_by_function(CORE)` returns after that history -/
 def geneOfJson (j : Json) : R Gene := do
-  let cores ← match j.getObjVal? "cores" with
-    | .ok v => listOf asStr v
-    | .error _ => pure []
+  let cores ← match j.getObjVal? "ann" with
+    | .ok v => do
+      let ops ← listOf annOpOfJson v
+      pure (GeneFn.coreProducts (GeneFn.run ops))
+    | .error _ =>
+      match j.getObjVal? "cores" with
+      | .ok v => listOf asStr v
+      | .error _ => pure []
   return { id := ← natF j "id", loc := ← locOfJson (← fld j "loc"), cores := cores }
+
+/-- the spec's reading of a gene's annotation history: (carried annotations as [fn, product], core products) -/
+def annSpecOfJson (j : Json) : R Json := do
+  match j.getObjVal? "ann" with
+  | .ok v => do
+    let ops ← listOf annOpOfJson v
+    pure (jObj [("id", fldD j "id" Json.null),
+      ("carried", jArr ((GeneFn.carried ops).map fun a => jArr [toJson a.fn, Json.str a.tool, Json.str a.desc, Json.str a.product])),
+      ("cores", jStrs (GeneFn.specCoreProducts ops)),
+      ("model_cores", jStrs (GeneFn.coreProducts (GeneFn.run ops)))])
+  | .error _ => pure Json.null
 
 def kindOfStr : String → R Kind
   | "proto" => pure .proto | "sideproto" => pure .sideProto | "cand" => pure .cand | "sub" => pure .sub | "region" => pure .region
@@ -221,6 +246,10 @@ def handle (j : Json) : R Json := do
                  ("model2", eJson (obsOf extra ops) (run len ops2)),
                  ("spec", specObs extra ops),
                  ("log_ok", toJson (checkLog ops implLog)),
+                 ("ann", jArr (← (← arrF j "ops").filterMapM fun o => do
+                    match ← asStr (← idx o 0) with
+                    | "cds" => do let x ← annSpecOfJson (← idx o 1); pure (if x == Json.null then none else some x)
+                    | _ => pure none)),
                  ("scope", toJson scope)]
   | _ => throw s!"C08: unknown case kind {f}"
 
